@@ -206,6 +206,7 @@ fn text(d: &Dv) -> String {
 /// Per-case interning of opaque leaves. Ids 0.. are reserved for leaves the model must recognise.
 struct Intern {
     m: BTreeMap<String, usize>,
+    dvs: BTreeMap<usize, Dv>,
 }
 
 fn zero32() -> String {
@@ -221,14 +222,61 @@ impl Intern {
         m.insert("(0,false())".into(), 3); // zero Orchard value_sum
         m.insert("0".into(), 4); // the number 0 (default lock time)
         m.insert("4294967295".into(), 5); // u32::MAX (default sequence)
-        Intern { m }
+        Intern { m, dvs: BTreeMap::new() }
     }
     fn id(&mut self, t: String) -> usize {
         let n = self.m.len();
         *self.m.entry(t).or_insert(n)
     }
+    fn id_dv(&mut self, d: &Dv) -> usize {
+        let i = self.id(text(d));
+        self.dvs.entry(i).or_insert_with(|| d.clone());
+        i
+    }
     fn atom(&mut self, d: &Dv) -> String {
-        format!("DA {}", self.id(text(d)))
+        format!("DA {}", self.id_dv(d))
+    }
+    /// The serde value of every interned leaf (Coq `list wval`, indexed by id).
+    fn table(&self) -> String {
+        let n = self.m.len();
+        let mut out = vec![];
+        for i in 0..n {
+            out.push(match i {
+                0 => format!("(VL [{}])", vec!["(VN 0)"; 32].join("; ")),
+                1 => "(VE 0 (VL []))".to_string(),
+                2 => "(VE 1 (VL []))".to_string(),
+                3 => "(VL [(VN 0); (VB false)])".to_string(),
+                4 => "(VN 0)".to_string(),
+                5 => "(VN 4294967295)".to_string(),
+                _ => self.dvs.get(&i).map(dv_wval).unwrap_or_else(|| "(VL [])".to_string()),
+            });
+        }
+        format!("[{}]", out.join("; "))
+    }
+}
+
+/// The serde value of a leaf, from its Debug structure (which mirrors the serde structure for the
+/// leaf types of a PCZT: byte arrays and vectors, strings, integers, tuples, `Zip32Derivation`).
+fn dv_wval(d: &Dv) -> String {
+    match d {
+        Dv::Num(n) => {
+            if n.starts_with('-') {
+                format!("(VZ ({}))", n)
+            } else {
+                format!("(VN {})", n)
+            }
+        }
+        Dv::Str(t) => format!("(VL [{}])", t.as_bytes().iter().map(|b| format!("(VN {})", b)).collect::<Vec<_>>().join("; ")),
+        Dv::List(vs) => format!("(VL [{}])", vs.iter().map(dv_wval).collect::<Vec<_>>().join("; ")),
+        Dv::Tuple(n, vs) if n.is_empty() => format!("(VL [{}])", vs.iter().map(dv_wval).collect::<Vec<_>>().join("; ")),
+        Dv::Tuple(n, vs) if vs.is_empty() && n == "true" => "(VB true)".into(),
+        Dv::Tuple(n, vs) if vs.is_empty() && n == "false" => "(VB false)".into(),
+        Dv::Tuple(n, vs) if vs.is_empty() && n == "V2" => "(VE 0 (VL []))".into(),
+        Dv::Tuple(n, vs) if vs.is_empty() && n == "V3" => "(VE 1 (VL []))".into(),
+        Dv::Tuple(_, vs) if vs.len() == 1 => dv_wval(&vs[0]), // newtype struct: transparent in serde
+        Dv::Tuple(_, vs) => format!("(VL [{}])", vs.iter().map(dv_wval).collect::<Vec<_>>().join("; ")),
+        Dv::Struct(_, fs) => format!("(VL [{}])", fs.iter().map(|(_, v)| dv_wval(v)).collect::<Vec<_>>().join("; ")),
+        Dv::Map(m) => format!("(VL [{}])", m.iter().map(|(k, v)| format!("(VL [{}; {}])", dv_wval(k), dv_wval(v))).collect::<Vec<_>>().join("; ")),
     }
 }
 
@@ -246,15 +294,23 @@ fn conv(d: &Dv, it: &mut Intern, sh: &mut Shapes, path: &str) -> String {
             }
             format!("DS [{}]", fs.iter().map(|(f, v)| conv(v, it, sh, &(if path.is_empty() { f.clone() } else { format!("{}.{}", path, f) }))).collect::<Vec<_>>().join("; "))
         }
-        Dv::List(vs) if vs.is_empty() => "DL []".into(),
+        Dv::List(vs) if vs.is_empty() => {
+            // an empty vector of records (the only record vectors of a PCZT) vs an empty byte vector
+            let last = path.rsplit('.').next().unwrap_or("");
+            if ["inputs", "outputs", "spends", "actions"].contains(&last) {
+                "DL []".into()
+            } else {
+                it.atom(d)
+            }
+        }
         Dv::List(vs) if vs.iter().all(|v| matches!(v, Dv::Struct(..))) => {
             format!("DL [{}]", vs.iter().map(|v| format!("({})", conv(v, it, sh, path))).collect::<Vec<_>>().join("; "))
         }
-        Dv::Tuple(n, vs) if n == "Some" && vs.len() == 1 => format!("DOS {}", it.id(text(&vs[0]))),
+        Dv::Tuple(n, vs) if n == "Some" && vs.len() == 1 => format!("DOS {}", it.id_dv(&vs[0])),
         Dv::Tuple(n, vs) if n == "None" && vs.is_empty() => "DON".into(),
-        Dv::Tuple(n, vs) if n == "Encrypted" && vs.len() == 1 => format!("DT 0 {}", it.id(text(&vs[0]))),
-        Dv::Tuple(n, vs) if n == "MemoPlaintext" && vs.len() == 1 => format!("DT 1 {}", it.id(text(&vs[0]))),
-        Dv::Map(m) => format!("DM [{}]", m.iter().map(|(k, v)| format!("KV {} {}", it.id(text(k)), it.id(text(v)))).collect::<Vec<_>>().join("; ")),
+        Dv::Tuple(n, vs) if n == "Encrypted" && vs.len() == 1 => format!("DT 0 {}", it.id_dv(&vs[0])),
+        Dv::Tuple(n, vs) if n == "MemoPlaintext" && vs.len() == 1 => format!("DT 1 {}", it.id_dv(&vs[0])),
+        Dv::Map(m) => format!("DM [{}]", m.iter().map(|(k, v)| format!("KV {} {}", it.id_dv(k), it.id_dv(v))).collect::<Vec<_>>().join("; ")),
         Dv::Num(n) => match n.parse::<i128>() {
             Ok(x) => format!("DN {}", z(x)),
             Err(_) => it.atom(d),
@@ -1021,6 +1077,27 @@ fn ser_case(cx: &mut Ctx, p: &Pczt) {
     let v2s = opt(v2.as_ref().map(|_| opt(v2_back.as_ref().map(|q| tree(q, &mut it, cx.shapes)))));
     case(format!("CSer {} {} {} {}", t, o, v1s, v2s));
     cx.n_cases += 1;
+}
+
+
+/// The logical tree, the serde value of each of its leaves, the bytes `Pczt::serialize` writes and the
+/// tree parsed back from them: ties the embedding of logical trees into wire values to the crate.
+fn serb_case(cx: &mut Ctx, p: &Pczt) {
+    let mut it = Intern::new();
+    let t = tree(p, &mut it, cx.shapes);
+    let bytes = match catch(|| p.clone().serialize().ok()).flatten() {
+        Some(b) => b,
+        None => return,
+    };
+    if bytes.len() > 30_000 {
+        return;
+    }
+    let back = catch(|| Pczt::parse(&bytes).ok()).flatten();
+    let back_t = opt(back.as_ref().map(|q| tree(q, &mut it, cx.shapes)));
+    let v1ok = catch(|| pczt::v1::Pczt::try_from(p.clone()).is_ok()).unwrap_or(false);
+    case(format!("CSerB {} {} {} {} {}", t, it.table(), hn(&bytes), back_t, boolc(v1ok)));
+    cx.n_cases += 1;
+    cx.bump("serb");
 }
 
 /// Malformed stream: mutated encodings must be rejected or parse to something that re-serialises.
@@ -1811,6 +1888,9 @@ fn main() {
             if cx.rng.chance(1, 2) {
                 effects_case(&mut cx, p);
             }
+            if cx.rng.chance(1, 4) {
+                serb_case(&mut cx, p);
+            }
         }
         effects_case(&mut cx, &b.pczt);
         if cx.rng.chance(1, 3) {
@@ -1832,6 +1912,7 @@ fn main() {
             effects_case(&mut cx, &r);
             if cx.rng.chance(1, 3) || spec.memo == 1 {
                 bytes_case(&mut cx, &r);
+                serb_case(&mut cx, &r);
             }
             cx.bump(&format!("compact_memo{}", spec.memo));
         }
